@@ -94,19 +94,19 @@ Qed.
 
 Notation runS := (interp_s sstate srv_react srv_connect srv_tls).
 
-Theorem listscripts_against_server : forall f st (w : sworld sstate),
+Theorem listscripts_against_server_k : forall f st (w : sworld sstate) (k : kont),
   c_auth st = true -> s_stream sstate w = [] -> conforming (s_peer sstate w) -> names_ok (s_peer sstate w) ->
   let s := s_peer sstate w in
   let es := listing_entries (s_store s) (s_active s) in
   exists s3,
-    runS (listscripts (S (length (s_store s) + f)) st finish) w =
-    (ODone (VListing (last_active es) (map fst (filter (fun e => negb (snd e)) es))) st,
-     mkSW sstate s3 [] (S (s_n sstate w)) (s_conn sstate w) (Transport.s_tls sstate w)
+    runS (listscripts (S (length (s_store s) + f)) st k) w =
+    runS (k st (VListing (last_active es) (map fst (filter (fun e => negb (snd e)) es))))
+     (mkSW sstate s3 [] (S (s_n sstate w)) (s_conn sstate w) (Transport.s_tls sstate w)
           (WSend (s_conn sstate w) (Transport.s_tls sstate w) (command_bytes (bs "LISTSCRIPTS") []) :: s_log sstate w)) /\
     conforming s3 /\ s_store s3 = s_store s /\ s_active s3 = s_active s /\ s_cfg s3 = s_cfg s /\
     s3 = snd (render_answer AnsListing (booked (bs "LISTSCRIPTS") [] s)).
 Proof.
-  intros f st w Ha Hs Hc Hn s es.
+  intros f st w k Ha Hs Hc Hn s es.
   set (s2 := booked (bs "LISTSCRIPTS") [] s).
   assert (Hstep : srv_step (bs "LISTSCRIPTS") (map decode_arg []) s = Some (AnsListing, s2)) by reflexivity.
   (* what the server writes *)
@@ -140,8 +140,8 @@ Proof.
   assert (Hlc : length (combine es encs) = length (s_store s)).
   { rewrite combine_length. unfold es, listing_entries. rewrite map_length. change (s_store s2) with (s_store s) in Hlen. lia. }
   pose proof (read_response_listing sstate srv_react srv_connect srv_tls (combine es encs) r f [] 0 st
-               (fun st0 code _ listing => if is_no code then finish st0 VNone
-                  else let '(a, o) := parse_listing (splitlines listing) None [] in finish st0 (VListing a o))
+               (fun st0 code _ listing => if is_no code then k st0 VNone
+                  else let '(a, o) := parse_listing (splitlines listing) None [] in k st0 (VListing a o))
                w' [] Hall Hok) as RR.
   rewrite Hlc in RR. rewrite RR by (unfold w'; cbn; rewrite app_nil_r; reflexivity).
   unfold r at 1. cbn [r_status mk_reply app]. change (is_no (Some (bs "OK"))) with false. cbv iota.
@@ -154,19 +154,19 @@ Qed.
 
 (* ------------------------------------------------------------------ GETSCRIPT end to end *)
 
-Theorem getscript_against_server : forall f name content st (w : sworld sstate),
+Theorem getscript_against_server_k : forall f name content st (w : sworld sstate) (k : kont),
   c_auth st = true -> s_stream sstate w = [] -> conforming (s_peer sstate w) ->
   assoc_get name (s_store (s_peer sstate w)) = Some content ->
   let s := s_peer sstate w in
   exists s3,
-    runS (getscript (S (S (S f))) name st finish) w =
-    (ODone (VBytes (join [10%N] (splitlines content))) st,
-     mkSW sstate s3 [] (S (s_n sstate w)) (s_conn sstate w) (Transport.s_tls sstate w)
+    runS (getscript (S (S (S f))) name st k) w =
+    runS (k st (VBytes (join [10%N] (splitlines content))))
+     (mkSW sstate s3 [] (S (s_n sstate w)) (s_conn sstate w) (Transport.s_tls sstate w)
           (WSend (s_conn sstate w) (Transport.s_tls sstate w) (command_bytes (bs "GETSCRIPT") [AStr name]) :: s_log sstate w)) /\
     conforming s3 /\ s_store s3 = s_store s /\ s_active s3 = s_active s /\ s_cfg s3 = s_cfg s /\
     s3 = snd (render_answer (AnsScript content) (booked (bs "GETSCRIPT") [PStr name] s)).
 Proof.
-  intros f name content st w Ha Hs Hc Hget s.
+  intros f name content st w k Ha Hs Hc Hget s.
   set (s2 := booked (bs "GETSCRIPT") [PStr name] s).
   assert (Hstep : srv_step (bs "GETSCRIPT") (map decode_arg [AStr name]) s = Some (AnsScript content, s2)).
   { unfold srv_step, exec_command. eval_beq. cbv iota. cbn [map decode_arg].
@@ -207,14 +207,94 @@ Proof.
   destruct (read_response_script sstate srv_react srv_connect srv_tls content enc eol r f st
               (fun st0 code _ cont => if is_ok code
                  then match scan_quoted cont with
-                      | None => finish st0 VNone
-                      | Some (body, _) => finish st0 (VBytes (join [10%N] (splitlines (unescape_q body))))
+                      | None => k st0 VNone
+                      | Some (body, _) => k st0 (VBytes (join [10%N] (splitlines (unescape_q body))))
                       end
-                 else finish st0 VNone)
+                 else k st0 VNone)
               w' [] Hok Heol) as (tail & RR).
   { unfold w'. cbn [s_stream]. rewrite ?app_nil_r, <- ?app_assoc. reflexivity. }
   rewrite RR. unfold r at 1. cbn [r_status mk_reply]. change (is_ok (Some (bs "OK"))) with true. cbv iota.
   rewrite getscript_decode, unescape_escape. reflexivity.
+Qed.
+
+
+(* with the final continuation *)
+Theorem listscripts_against_server : forall f st (w : sworld sstate),
+  c_auth st = true -> s_stream sstate w = [] -> conforming (s_peer sstate w) -> names_ok (s_peer sstate w) ->
+  let s := s_peer sstate w in
+  let es := listing_entries (s_store s) (s_active s) in
+  exists s3,
+    runS (listscripts (S (length (s_store s) + f)) st finish) w =
+    (ODone (VListing (last_active es) (map fst (filter (fun e => negb (snd e)) es))) st,
+     mkSW sstate s3 [] (S (s_n sstate w)) (s_conn sstate w) (Transport.s_tls sstate w)
+          (WSend (s_conn sstate w) (Transport.s_tls sstate w) (command_bytes (bs "LISTSCRIPTS") []) :: s_log sstate w)) /\
+    conforming s3 /\ s_store s3 = s_store s /\ s_active s3 = s_active s /\ s_cfg s3 = s_cfg s /\
+    s3 = snd (render_answer AnsListing (booked (bs "LISTSCRIPTS") [] s)).
+Proof. intros f st w Ha Hs Hc Hn. exact (listscripts_against_server_k f st w finish Ha Hs Hc Hn). Qed.
+
+Theorem getscript_against_server : forall f name content st (w : sworld sstate),
+  c_auth st = true -> s_stream sstate w = [] -> conforming (s_peer sstate w) ->
+  assoc_get name (s_store (s_peer sstate w)) = Some content ->
+  let s := s_peer sstate w in
+  exists s3,
+    runS (getscript (S (S (S f))) name st finish) w =
+    (ODone (VBytes (join [10%N] (splitlines content))) st,
+     mkSW sstate s3 [] (S (s_n sstate w)) (s_conn sstate w) (Transport.s_tls sstate w)
+          (WSend (s_conn sstate w) (Transport.s_tls sstate w) (command_bytes (bs "GETSCRIPT") [AStr name]) :: s_log sstate w)) /\
+    conforming s3 /\ s_store s3 = s_store s /\ s_active s3 = s_active s /\ s_cfg s3 = s_cfg s /\
+    s3 = snd (render_answer (AnsScript content) (booked (bs "GETSCRIPT") [PStr name] s)).
+Proof. intros f name content st w Ha Hs Hc Hg. exact (getscript_against_server_k f name content st w finish Ha Hs Hc Hg). Qed.
+
+(* ------------------------------------------------------------------ single-status commands with any continuation *)
+
+Definition answer_state (a : answer) (c : N) (st : cstate) : cstate :=
+  match a with
+  | AnsNO code => set_err (match code with Some x => x | None => [] end)
+                          (if ((c / 2) mod 4 =? 0)%N then [] else bs "refused") st
+  | _ => st
+  end.
+
+Definition answer_bool (a : answer) : bool := match a with AnsOK _ => true | _ => false end.
+
+Theorem simple_cmd_against_server_k : forall f verb args st (w : sworld sstate) a s2 (k : kont),
+  In verb simple_verbs -> s_stream sstate w = [] -> conforming (s_peer sstate w) ->
+  srv_step verb (map decode_arg args) (s_peer sstate w) = Some (a, s2) ->
+  exists c s3,
+    pick s2 = (c, s3) /\ conforming s3 /\
+    s_store s3 = s_store s2 /\ s_active s3 = s_active s2 /\ s_cfg s3 = s_cfg (s_peer sstate w) /\
+    runS (simple_cmd (S f) verb args st k) w =
+    runS (k (answer_state a c st) (VBool (answer_bool a)))
+     (mkSW sstate s3 [] (S (s_n sstate w)) (s_conn sstate w) (Transport.s_tls sstate w)
+          (WSend (s_conn sstate w) (Transport.s_tls sstate w) (command_bytes verb args) :: s_log sstate w)).
+Proof.
+  intros f verb args st w a s2 k Hv Hs Hc Hstep.
+  destruct (srv_react_simple verb args (s_peer sstate w) a s2 Hv Hc Hstep)
+    as (c & s3 & Hp & Hreact & Hc3 & Hst & Hac & Hcfg).
+  exists c, s3. repeat split; try assumption; try apply Hc3.
+  assert (Hsa : simple_answer a) by (eapply exec_simple_answer; eauto).
+  set (r := match a with
+            | AnsOK code => mk_reply StOK code (bs "done") c
+            | AnsNO code => mk_reply StNO code (bs "refused") c
+            | _ => mk_reply StOK None [] c
+            end) in *.
+  assert (Hok : reply_ok r).
+  { subst r. destruct a as [[x|]|[x|]| | |]; try contradiction; unfold reply_ok, mk_reply; cbn; auto. }
+  unfold simple_cmd, send_command. cbn [send_all].
+  change (runS (Send ?d ?p) w)
+    with (let '(s', reply) := srv_react (s_peer sstate w) d in
+          runS p (mkSW sstate s' (s_stream sstate w ++ reply) (S (s_n sstate w)) (s_conn sstate w)
+                       (Transport.s_tls sstate w)
+                       (WSend (s_conn sstate w) (Transport.s_tls sstate w) d :: s_log sstate w))).
+  rewrite Hreact, Hs. cbn [app].
+  match goal with |- context [runS _ ?w0] => set (w' := w0) end.
+  rewrite (read_response_reply sstate srv_react srv_connect srv_tls r f None false [] 0 st _ w' [] Hok)
+    by (unfold w'; cbn; rewrite app_nil_r; reflexivity).
+  subst r. destruct a as [code|code| | |]; try contradiction; cbn [r_status mk_reply].
+  - reflexivity.
+  - change (is_ok (Some (bs "NO"))) with false. unfold answer_state, answer_bool.
+    unfold code_of, text_of, mk_reply. cbn [r_code r_text].
+    destruct code as [x|]; [|contradiction].
+    destruct ((c / 2) mod 4 =? 0)%N; reflexivity.
 Qed.
 
 (* ------------------------------------------------------------------ whole sessions, data operations included *)
